@@ -11,6 +11,7 @@
 import Csvq.Model.FixedAuto
 import Csvq.Lemmas.Fixed
 namespace Csvq.Fixed
+open Csvq.Csv (LB Err DCell DTable endingChars nullCell autoNames autofill)
 
 /-! ## blank runs of one line -/
 
@@ -788,5 +789,569 @@ theorem geo_tail (wd : Char → Nat) :
       refine ⟨h1, h2, ?_⟩
       exact ih fs (p + w + 1) (p + byteSize wd f.contents) (p + 1) (by simpa using hlen) hfit'
         (fun x hx => hok x (by simp [hx])) hwd (by omega) (by omega)
+
+/-! ## Part 3: reading such a line with positions that lie in the blank runs -/
+
+theorem noBreak_pad (k : Nat) : NoBreak (pad k) := by
+  intro c hc
+  have := mem_pad k c hc
+  subst this
+  exact ⟨by decide, by decide⟩
+
+theorem noBreak_append {a b : List Char} (ha : NoBreak a) (hb : NoBreak b) : NoBreak (a ++ b) := by
+  intro c hc
+  rcases List.mem_append.mp hc with h | h
+  · exact ha c h
+  · exact hb c h
+
+/-- characters that stay below the next delimiter position go into the buffer -/
+theorem run_buf (wd : Char → Nat) (ps : List Nat) (b : St) (e : Nat) (rest : List Nat) (fields : List (List Char))
+    (s : List Char) : ∀ (buf : List Char) (p : Nat), p + byteSize wd s < e → NoBreak s →
+    run wd ps (S b (e :: rest) p buf fields) s = .ok (S b (e :: rest) (p + byteSize wd s) (s.reverse ++ buf) fields) := by
+  induction s with
+  | nil => intro buf p _ _; simp [run_nil, byteSize]
+  | cons c cs ih =>
+    intro buf p hlt hnb
+    obtain ⟨h1, h2⟩ := hnb c (by simp)
+    simp only [byteSize] at hlt
+    rw [run_cons]
+    have hlt1 : ¬ (e < p + wd c) := by omega
+    have hne : ¬ (p + wd c = e) := by omega
+    have hstep : step wd ps (S b (e :: rest) p buf fields) c = .ok (S b (e :: rest) (p + wd c) (c :: buf) fields) := by
+      simp [step, stepMain, S, h1, h2, hlt1, hne]
+    rw [hstep]
+    simp only
+    rw [ih (c :: buf) (p + wd c) (by omega) (fun x hx => hnb x (by simp [hx]))]
+    simp [byteSize, Nat.add_assoc]
+
+/-- beyond the last delimiter position the rest of the line is skipped -/
+theorem run_skip (wd : Char → Nat) (ps : List Nat) (b : St) (fields : List (List Char)) (s : List Char) :
+    ∀ (p : Nat), NoBreak s → run wd ps (S b [] p [] fields) s = .ok (S b [] (p + s.length) [] fields) := by
+  induction s with
+  | nil => intro p _; simp [run_nil]
+  | cons c cs ih =>
+    intro p hnb
+    obtain ⟨h1, h2⟩ := hnb c (by simp)
+    rw [run_cons]
+    have hstep : step wd ps (S b [] p [] fields) c = .ok (S b [] (p + 1) [] fields) := by
+      simp [step, stepMain, S, h1, h2]
+    rw [hstep]
+    simp only
+    rw [ih (p + 1) (fun x hx => hnb x (by simp [hx]))]
+    simp [Nat.add_assoc, Nat.add_comm 1]
+
+def sepLen (first : Bool) : Nat := if first then 0 else 1
+
+/-- the delimiter positions `Ms` lie, column by column, between the end of the value and the end of the
+    column's bytes -/
+def ColOK (wd : Char → Nat) : Nat → Bool → List Nat → List Field → List Nat → Prop
+  | _, _, [], [], [] => True
+  | pos, first, w :: ws, f :: fs, m :: ms =>
+    pos + sepLen first + leadPad wd f w + byteSize wd f.contents ≤ m ∧ m ≤ pos + sepLen first + w ∧
+    ColOK wd (pos + sepLen first + w) false ws fs ms
+  | _, _, _, _, _ => False
+
+theorem pad_add (a b : Nat) : pad a ++ pad b = pad (a + b) := by simp [pad, List.replicate_append_replicate]
+
+/-- **a written line, read with such positions**: every field is the trimmed text -/
+theorem run_lineOf (wd : Char → Nat) (hwd : ∀ c, 1 ≤ wd c) (hw : wd ' ' = 1) (P : List Nat) (b : St) :
+    ∀ (ws : List Nat) (fs : List Field) (ms : List Nat) (first : Bool) (pos k : Nat) (fields : List (List Char)),
+      ws ≠ [] → AllFit wd ws fs → ColOK wd pos first ws fs ms → (∀ f ∈ fs, NoBreak f.contents ∧ f.contents ≠ []) →
+      ∃ E, run wd P (S b ms pos (pad k) fields) (lineOf wd first ws fs)
+        = .ok (S b [] E [] ((fs.map fun f => trim f.contents).reverse ++ fields)) ∧ pos < E := by
+  intro ws
+  induction ws with
+  | nil => intro _ _ _ _ _ _ h; exact absurd rfl h
+  | cons w ws ih =>
+    intro fs ms first pos k fields _ hfit hcol hok
+    cases fs with
+    | nil => simp [AllFit] at hfit
+    | cons f fs =>
+      cases ms with
+      | nil => simp [ColOK] at hcol
+      | cons m ms =>
+        simp only [AllFit] at hfit
+        simp only [ColOK] at hcol
+        obtain ⟨hw1, hsz, hfit'⟩ := hfit
+        obtain ⟨c1, c2, hcol'⟩ := hcol
+        obtain ⟨hnb, hne⟩ := hok f (by simp)
+        have hpos := byteSize_pos wd hwd f.contents hne
+        have hlp := leadPad_le wd f w
+        -- the part of the column up to the position, and the blanks after it
+        let x := sepLen first + leadPad wd f w
+        let e := pos + x + byteSize wd f.contents
+        let b1 := m - e
+        let b2 := trailPad wd f w - b1
+        have hb : b1 + b2 = trailPad wd f w := by
+          show (m - e) + (trailPad wd f w - (m - e)) = trailPad wd f w
+          have : m - e ≤ trailPad wd f w := by
+            show m - (pos + (sepLen first + leadPad wd f w) + byteSize wd f.contents) ≤ w - byteSize wd f.contents - leadPad wd f w
+            omega
+          omega
+        have htext : lineOf wd first (w :: ws) (f :: fs)
+            = (pad x ++ f.contents ++ pad b1) ++ (pad b2 ++ lineOf wd false ws fs) := by
+          have hsep : (if first = true then [] else [' ']) = pad (sepLen first) := by
+            cases first <;> simp [sepLen, pad]
+          simp only [lineOf, fieldText, hsep]
+          rw [← hb, ← pad_add b1 b2]
+          show _ = pad (sepLen first + leadPad wd f w) ++ _ ++ _ ++ _
+          rw [← pad_add (sepLen first) (leadPad wd f w)]
+          simp [List.append_assoc]
+        have hs_nb : NoBreak (pad x ++ f.contents ++ pad b1) :=
+          noBreak_append (noBreak_append (noBreak_pad x) hnb) (noBreak_pad b1)
+        have hs_ne : pad x ++ f.contents ++ pad b1 ≠ [] := by
+          intro h0
+          have h1 := (List.append_eq_nil_iff.mp h0).1
+          exact hne (List.append_eq_nil_iff.mp h1).2
+        have hs_size : pos + byteSize wd (pad x ++ f.contents ++ pad b1) = m := by
+          rw [byteSize_append, byteSize_append, byteSize_pad wd hw, byteSize_pad wd hw]
+          show pos + (x + byteSize wd f.contents + (m - (pos + x + byteSize wd f.contents))) = m
+          have : pos + x + byteSize wd f.contents ≤ m := by
+            show pos + (sepLen first + leadPad wd f w) + byteSize wd f.contents ≤ m
+            omega
+          omega
+        have hpm : pos < m := by
+          have := byteSize_pos wd hwd _ hs_ne
+          omega
+        have hcolrun := run_column wd hwd P b m ms fields (pad x ++ f.contents ++ pad b1) (pad k) pos hs_size hs_ne hs_nb
+        have htrim : trim ((pad k).reverse ++ (pad x ++ f.contents ++ pad b1)) = trim f.contents := by
+          rw [pad_reverse]
+          have : pad k ++ (pad x ++ f.contents ++ pad b1) = pad (k + x) ++ f.contents ++ pad b1 := by
+            rw [← pad_add k x]; simp [List.append_assoc]
+          rw [this, trim_padded]
+        rw [htrim] at hcolrun
+        rw [htext, run_append, hcolrun]
+        simp only
+        -- the blanks after the position
+        have hm_b2 : m + b2 = pos + sepLen first + w := by
+          have h1 : e ≤ m := by
+            show pos + (sepLen first + leadPad wd f w) + byteSize wd f.contents ≤ m
+            omega
+          have h2 : trailPad wd f w = w - byteSize wd f.contents - leadPad wd f w := rfl
+          have h3 : e = pos + (sepLen first + leadPad wd f w) + byteSize wd f.contents := rfl
+          have h4 : b1 = m - e := rfl
+          have h5 : b2 = trailPad wd f w - b1 := rfl
+          omega
+        cases ws with
+        | nil =>
+          cases fs with
+          | cons f2 fs2 => simp [AllFit] at hfit'
+          | nil =>
+            cases ms with
+            | cons m2 ms2 => simp [ColOK] at hcol'
+            | nil =>
+              simp only [lineOf, List.append_nil]
+              rw [run_skip wd P b _ (pad b2) m (noBreak_pad b2)]
+              refine ⟨m + (pad b2).length, by simp, ?_⟩
+              omega
+        | cons w2 ws2 =>
+          cases fs with
+          | nil => simp [AllFit] at hfit'
+          | cons f2 fs2 =>
+            cases ms with
+            | nil => simp [ColOK] at hcol'
+            | cons m2 ms2 =>
+              have hc2 := hcol'
+              simp only [ColOK] at hc2
+              obtain ⟨d1, _, _⟩ := hc2
+              obtain ⟨_, hne2⟩ := hok f2 (by simp)
+              have hpos2 := byteSize_pos wd hwd f2.contents hne2
+              rw [run_append]
+              have hlt : m + byteSize wd (pad b2) < m2 := by
+                rw [byteSize_pad wd hw]
+                have hs1 : sepLen false = 1 := rfl
+                omega
+              rw [run_buf wd P b m2 ms2 _ (pad b2) [] m hlt (noBreak_pad b2)]
+              simp only [List.append_nil, pad_reverse, byteSize_pad wd hw]
+              obtain ⟨E, hrun, hE⟩ := ih (f2 :: fs2) (m2 :: ms2) false (m + b2) b2 (trim f.contents :: fields) (by simp)
+                hfit' (by rw [hm_b2]; exact hcol') (fun g hg => hok g (by simp [hg]))
+              refine ⟨E, ?_, by omega⟩
+              rw [hrun]
+              simp
+
+/-! ## Part 4: the positions found are such positions -/
+
+/-- the last byte of every value of a line, as `Delimit` sees it -/
+def esFrom (wd : Char → Nat) : Nat → Bool → List Nat → List Field → List Int
+  | pos, first, w :: ws, f :: fs =>
+    ((pos + sepLen first + leadPad wd f w + byteSize wd f.contents : Nat) : Int)
+      :: esFrom wd (pos + sepLen first + w) false ws fs
+  | _, _, _, _ => []
+
+theorem esFrom_flush (wd : Char → Nat) :
+    ∀ (ws : List Nat) (fs : List Field) (pos : Nat), Flush wd ws fs →
+      esFrom wd pos false ws fs = tailEnds wd ((pos : Int) + 1) ws fs := by
+  intro ws
+  induction ws with
+  | nil => intro fs pos _; cases fs <;> rfl
+  | cons w ws ih =>
+    intro fs pos hfl
+    cases fs with
+    | nil => rfl
+    | cons f fs =>
+      simp only [Flush] at hfl
+      simp only [esFrom, tailEnds, hfl.1, sepLen, Bool.false_eq_true, if_false]
+      rw [ih fs _ hfl.2]
+      have e1 : ((pos + 1 + 0 + byteSize wd f.contents : Nat) : Int) = (pos : Int) + 1 + (byteSize wd f.contents : Int) := by
+        omega
+      have e2 : ((pos + 1 + w : Nat) : Int) + 1 = (pos : Int) + 1 + (w : Int) + 1 := by omega
+      rw [e1, e2]
+
+theorem colOK_colMaxes (wd : Char → Nat) :
+    ∀ (ws : List Nat) (rows : List (List Field)) (pos : Nat) (first : Bool),
+      (∀ r ∈ rows, r.length = ws.length ∧ AllFit wd ws r) →
+      ∀ r ∈ rows, ColOK wd pos first ws r ((colMaxes ws.length (rows.map (esFrom wd pos first ws))).map Int.toNat) := by
+  intro ws
+  induction ws with
+  | nil =>
+    intro rows pos first h r hr
+    have := (h r hr).1
+    cases r with
+    | nil => simp [colMaxes, ColOK]
+    | cons f fs => simp at this
+  | cons w ws ih =>
+    intro rows pos first h r hr
+    obtain ⟨hlen, hfit⟩ := h r hr
+    cases r with
+    | nil => simp at hlen
+    | cons f fs =>
+      simp only [AllFit] at hfit
+      obtain ⟨_, hsz, _⟩ := hfit
+      -- the heads and the tails of all rows
+      have htails : (rows.map (esFrom wd pos first (w :: ws))).map List.tail
+          = (rows.map List.tail).map (esFrom wd (pos + sepLen first + w) false ws) := by
+        simp only [List.map_map]
+        apply List.map_congr_left
+        intro x hx
+        obtain ⟨hxl, _⟩ := h x hx
+        cases x with
+        | nil => simp at hxl
+        | cons g gs => simp [esFrom]
+      have hhead_le : ∀ x ∈ (rows.map (esFrom wd pos first (w :: ws))).map (·.headD 0),
+          (0 : Int) ≤ x ∧ x ≤ ((pos + sepLen first + w : Nat) : Int) := by
+        intro x hx
+        simp only [List.map_map, List.mem_map, Function.comp] at hx
+        obtain ⟨y, hy, rfl⟩ := hx
+        obtain ⟨hyl, hyf⟩ := h y hy
+        cases y with
+        | nil => simp at hyl
+        | cons g gs =>
+          simp only [AllFit] at hyf
+          have := leadPad_le wd g w
+          simp only [esFrom, List.headD_cons]
+          constructor
+          · omega
+          · have h2 := hyf.2.1
+            omega
+      let m := fmax 0 ((rows.map (esFrom wd pos first (w :: ws))).map (·.headD 0))
+      have hm_ge : ((pos + sepLen first + leadPad wd f w + byteSize wd f.contents : Nat) : Int) ≤ m := by
+        apply fmax_ge_mem
+        simp only [List.map_map, List.mem_map, Function.comp]
+        exact ⟨f :: fs, hr, by simp [esFrom]⟩
+      have hm_le : m ≤ ((pos + sepLen first + w : Nat) : Int) := by
+        rcases fmax_mem_or_init 0 ((rows.map (esFrom wd pos first (w :: ws))).map (·.headD 0)) with h0 | h0
+        · show fmax 0 _ ≤ _
+          rw [h0]; omega
+        · exact (hhead_le _ h0).2
+      have hih := ih (rows.map List.tail) (pos + sepLen first + w) false (by
+        intro x hx
+        obtain ⟨y, hy, rfl⟩ := List.mem_map.mp hx
+        obtain ⟨hyl, hyf⟩ := h y hy
+        cases y with
+        | nil => simp at hyl
+        | cons g gs =>
+          simp only [AllFit] at hyf
+          exact ⟨by simpa using hyl, hyf.2.2⟩) fs (List.mem_map.mpr ⟨f :: fs, hr, rfl⟩)
+      simp only [List.length_cons, colMaxes, List.map_cons, ColOK, htails]
+      refine ⟨?_, ?_, hih⟩
+      · show _ ≤ Int.toNat m
+        omega
+      · show Int.toNat m ≤ _
+        omega
+
+theorem validFrom_colOK (wd : Char → Nat) (hwd : ∀ c, 1 ≤ wd c) :
+    ∀ (ws : List Nat) (fs : List Field) (ms : List Nat) (pos start : Nat) (first : Bool),
+      ColOK wd pos first ws fs ms → start ≤ pos → (∀ f ∈ fs, f.contents ≠ []) → validFrom start ms = true := by
+  intro ws
+  induction ws with
+  | nil =>
+    intro fs ms pos start first h _ _
+    cases fs <;> cases ms <;> simp_all [ColOK, validFrom]
+  | cons w ws ih =>
+    intro fs ms pos start first h hs hne
+    cases fs with
+    | nil => simp [ColOK] at h
+    | cons f fs =>
+      cases ms with
+      | nil => simp [ColOK] at h
+      | cons m ms =>
+        simp only [ColOK] at h
+        obtain ⟨h1, h2, h3⟩ := h
+        have := byteSize_pos wd hwd f.contents (hne f (by simp))
+        simp only [validFrom, Bool.and_eq_true, decide_eq_true_eq]
+        exact ⟨by omega, ih fs ms _ m false h3 h2 (fun g hg => hne g (by simp [hg]))⟩
+
+/-! ## Part 5: all lines -/
+
+def moreText (wd : Char → Nat) (lb : LB) (ws : List Nat) : List (List Field) → List Char
+  | [] => []
+  | r :: rs => lb.chars ++ (lineOf wd true ws r ++ moreText wd lb ws rs)
+
+theorem writeMore_lineOf (wd : Char → Nat) (lb : LB) (ws : List Nat) :
+    ∀ (more : List (List Field)) (rest : List Char), (∀ r ∈ more, r.length = ws.length) →
+      writeMore wd true lb (positionsOf 0 ws) more = .ok rest →
+      rest = moreText wd lb ws more ∧ ∀ r ∈ more, AllFit wd ws r := by
+  intro more
+  induction more with
+  | nil => intro rest _ h; simp only [writeMore] at h; injection h with h; subst h; exact ⟨rfl, by simp⟩
+  | cons r rs ih =>
+    intro rest hlen h
+    simp only [writeMore] at h
+    cases hr : writeRecord wd true (positionsOf 0 ws) r with
+    | error e => rw [hr] at h; simp at h
+    | ok s =>
+      rw [hr] at h
+      simp only at h
+      cases hm : writeMore wd true lb (positionsOf 0 ws) rs with
+      | error e => rw [hm] at h; simp at h
+      | ok rest' =>
+        rw [hm] at h
+        simp only at h
+        injection h with h
+        obtain ⟨h1, h2⟩ := writeFields_lineOf wd ws r true 0 s (hlen r (by simp)) hr
+        obtain ⟨h3, h4⟩ := ih rest' (fun x hx => hlen x (by simp [hx])) hm
+        subst h1; subst h3
+        refine ⟨by rw [← h]; rfl, ?_⟩
+        intro x hx
+        rcases List.mem_cons.mp hx with rfl | hx
+        · exact h2
+        · exact h4 x hx
+
+theorem lineOf_head (wd : Char → Nat) (w : Nat) (ws : List Nat) (f : Field) (fs : List Field)
+    (hne : f.contents ≠ []) (hnb : NoBreak f.contents) (tail : List Char) :
+    ∃ c cs, lineOf wd true (w :: ws) (f :: fs) ++ tail = c :: cs ∧ c ≠ '\n' := by
+  have hform : lineOf wd true (w :: ws) (f :: fs) ++ tail
+      = pad (leadPad wd f w) ++ (f.contents ++ (pad (trailPad wd f w) ++ (lineOf wd false ws fs ++ tail))) := by
+    simp [lineOf, fieldText, List.append_assoc]
+  rw [hform]
+  cases hl : leadPad wd f w with
+  | zero =>
+    cases hc : f.contents with
+    | nil => exact absurd hc hne
+    | cons c cs =>
+      exact ⟨c, cs ++ (pad (trailPad wd f w) ++ (lineOf wd false ws fs ++ tail)), by simp [pad],
+        (hnb c (by simp [hc])).2⟩
+  | succ k =>
+    exact ⟨' ', pad k ++ (f.contents ++ (pad (trailPad wd f w) ++ (lineOf wd false ws fs ++ tail))),
+      by simp [pad, List.replicate_succ], by decide⟩
+
+/-- what one row needs for the reader -/
+def RowOK (wd : Char → Nat) (ws : List Nat) (P : List Nat) (r : List Field) : Prop :=
+  AllFit wd ws r ∧ ColOK wd 0 true ws r P ∧ ∀ f ∈ r, NoBreak f.contents ∧ f.contents ≠ []
+
+theorem run_rows_auto (wd : Char → Nat) (hwd : ∀ c, 1 ≤ wd c) (hw : wd ' ' = 1) (P : List Nat) (w : Nat) (ws : List Nat)
+    (lb : LB) (hlb : lb ≠ .cr) (e : Option LB) (he : e ≠ some .cr) (more : List (List Field)) :
+    ∀ (r : List Field) (b : St), (∀ x ∈ r :: more, RowOK wd (w :: ws) P x) →
+    ∃ σ, (match run wd P (S b P 0 [] []) (lineOf wd true (w :: ws) r ++ (moreText wd lb (w :: ws) more ++ endingChars e)) with
+          | .ok σ' => finish P σ'
+          | .error err => .error err) = .ok σ
+       ∧ σ.recs = ((r :: more).map rowOf).reverse ++ b.recs := by
+  induction more with
+  | nil =>
+    intro r b hok
+    obtain ⟨hfit, hcol, hcells⟩ := hok r (by simp)
+    obtain ⟨E, hrun, hE⟩ := run_lineOf wd hwd hw P b (w :: ws) r P true 0 0 [] (by simp) hfit hcol hcells
+    have hpad0 : pad 0 = [] := rfl
+    rw [hpad0] at hrun
+    simp only [List.append_nil] at hrun
+    have hE0 : E ≠ 0 := by omega
+    simp only [moreText, List.nil_append]
+    cases e with
+    | none =>
+      simp only [endingChars, List.append_nil]
+      rw [hrun]
+      simp only
+      have := finish_end P b E hE0 (rowOf r)
+      simp only [rowOf] at this ⊢
+      rw [this]
+      exact ⟨_, rfl, by simp [S, nextBase, rowOf]⟩
+    | some lbE =>
+      have hr : RestOK lbE [] := fun h => absurd (by rw [h]) he
+      simp only [endingChars]
+      rw [run_append, hrun]
+      simp only
+      have := run_lb_after_record wd P b E (rowOf r) lbE [] hr
+      rw [List.append_nil] at this
+      simp only [rowOf] at this
+      rw [this, run_nil]
+      simp only
+      rw [finish_start]
+      exact ⟨_, rfl, by simp [S, nextBase, setDlb_recs, rowOf]⟩
+  | cons r2 more' ih =>
+    intro r b hok
+    obtain ⟨hfit, hcol, hcells⟩ := hok r (by simp)
+    obtain ⟨E, hrun, hE⟩ := run_lineOf wd hwd hw P b (w :: ws) r P true 0 0 [] (by simp) hfit hcol hcells
+    have hpad0 : pad 0 = [] := rfl
+    rw [hpad0] at hrun
+    simp only [List.append_nil] at hrun
+    have hr : RestOK lb (lineOf wd true (w :: ws) r2 ++ (moreText wd lb (w :: ws) more' ++ endingChars e)) :=
+      fun h => absurd h hlb
+    have hassoc : lineOf wd true (w :: ws) r ++ (moreText wd lb (w :: ws) (r2 :: more') ++ endingChars e)
+        = lineOf wd true (w :: ws) r ++ (lb.chars ++ (lineOf wd true (w :: ws) r2 ++ (moreText wd lb (w :: ws) more' ++ endingChars e))) := by
+      simp [moreText, List.append_assoc]
+    rw [hassoc, run_append, hrun]
+    simp only
+    have := run_lb_after_record wd P b E (rowOf r) lb _ hr
+    simp only [rowOf] at this
+    rw [this]
+    obtain ⟨σ, h1, h2⟩ := ih r2 (nextBase (setDlb b lb) (rowOf r)) (fun x hx => hok x (by simp [hx]))
+    refine ⟨σ, h1, ?_⟩
+    rw [h2]
+    simp [nextBase, setDlb_recs]
+
+/-! ## Part 6: the lines `Delimit` sees -/
+
+theorem readLines_line (l : List Char) (hl : ∀ c ∈ l, c ≠ '\n') (acc rest : List Char) :
+    readLines acc (l ++ '\n' :: rest) = dropCR (l.reverse ++ acc) :: readLines [] rest := by
+  induction l generalizing acc with
+  | nil => simp [readLines]
+  | cons c cs ih =>
+    have hc : c ≠ '\n' := hl c (by simp)
+    simp only [List.cons_append, readLines, hc, if_false]
+    rw [ih (fun x hx => hl x (by simp [hx]))]
+    simp
+
+theorem readLines_last (l : List Char) (hl : ∀ c ∈ l, c ≠ '\n') (acc : List Char) (hne : l.reverse ++ acc ≠ []) :
+    readLines acc l = [(l.reverse ++ acc).reverse] := by
+  induction l generalizing acc with
+  | nil =>
+    simp only [List.reverse_nil, List.nil_append] at hne ⊢
+    cases acc with
+    | nil => exact absurd rfl hne
+    | cons a as => simp [readLines]
+  | cons c cs ih =>
+    have hc : c ≠ '\n' := hl c (by simp)
+    simp only [readLines, hc, if_false]
+    rw [ih (fun x hx => hl x (by simp [hx])) (c :: acc) (by simp)]
+    simp
+
+def LineOK (l : List Char) : Prop := l ≠ [] ∧ ∀ c ∈ l, c ≠ '\n' ∧ c ≠ '\r'
+
+theorem dropCR_reverse (l : List Char) (h : ∀ c ∈ l, c ≠ '\r') : dropCR l.reverse = l := by
+  cases hr : l.reverse with
+  | nil =>
+    have : l = [] := by simpa using hr
+    subst this; rfl
+  | cons c r =>
+    have hc : c ∈ l := by
+      have : c ∈ l.reverse := by rw [hr]; simp
+      simpa using this
+    have := h c hc
+    simp only [dropCR, this, if_false]
+    rw [← hr]; simp
+
+theorem dropCR_cr (l : List Char) : dropCR ('\r' :: l.reverse) = l := by simp [dropCR]
+
+def moreLines (tm : List Char) : List (List Char) → List Char
+  | [] => []
+  | l :: ls => tm ++ (l ++ moreLines tm ls)
+
+theorem readLines_text (tm : List Char) (htm : tm = ['\n'] ∨ tm = ['\r', '\n']) (en : List Char)
+    (hen : en = [] ∨ en = ['\n'] ∨ en = ['\r', '\n']) :
+    ∀ (ls : List (List Char)) (l : List Char), LineOK l → (∀ x ∈ ls, LineOK x) →
+      readLines [] (l ++ (moreLines tm ls ++ en)) = l :: ls := by
+  have hterm : ∀ (l rest : List Char), LineOK l → (t : List Char) → (t = ['\n'] ∨ t = ['\r', '\n']) →
+      readLines [] (l ++ (t ++ rest)) = l :: readLines [] rest := by
+    intro l rest hl t ht
+    rcases ht with rfl | rfl
+    · simp only [List.cons_append, List.nil_append]
+      rw [readLines_line l (fun c hc => (hl.2 c hc).1), List.append_nil, dropCR_reverse l (fun c hc => (hl.2 c hc).2)]
+    · have e : l ++ (['\r', '\n'] ++ rest) = (l ++ ['\r']) ++ '\n' :: rest := by simp
+      rw [e, readLines_line (l ++ ['\r']) (by
+        intro c hc
+        rcases List.mem_append.mp hc with h | h
+        · exact (hl.2 c h).1
+        · simp only [List.mem_singleton] at h; subst h; decide)]
+      simp [dropCR_cr]
+  intro ls
+  induction ls with
+  | nil =>
+    intro l hl _
+    simp only [moreLines, List.nil_append]
+    rcases hen with rfl | rfl | rfl
+    · rw [List.append_nil, readLines_last l (fun c hc => (hl.2 c hc).1) [] (by simpa using hl.1)]
+      simp
+    · have := hterm l [] hl ['\n'] (Or.inl rfl)
+      simpa [readLines] using this
+    · have := hterm l [] hl ['\r', '\n'] (Or.inr rfl)
+      simpa [readLines] using this
+  | cons l2 ls ih =>
+    intro l hl hls
+    have e : l ++ (moreLines tm (l2 :: ls) ++ en) = l ++ (tm ++ (l2 ++ (moreLines tm ls ++ en))) := by
+      simp [moreLines, List.append_assoc]
+    rw [e, hterm l _ hl tm htm, ih l2 (hls l2 (by simp)) (fun x hx => hls x (by simp [hx]))]
+
+theorem moreText_moreLines (wd : Char → Nat) (lb : LB) (ws : List Nat) (more : List (List Field)) :
+    moreText wd lb ws more = moreLines lb.chars (more.map (lineOf wd true ws)) := by
+  induction more with
+  | nil => rfl
+  | cons r rs ih => simp [moreText, moreLines, ih]
+
+theorem lineOf_chars (wd : Char → Nat) :
+    ∀ (ws : List Nat) (fs : List Field) (first : Bool) (c : Char), c ∈ lineOf wd first ws fs →
+      c = ' ' ∨ ∃ f ∈ fs, c ∈ f.contents := by
+  intro ws
+  induction ws with
+  | nil => intro fs first c h; simp [lineOf] at h
+  | cons w ws ih =>
+    intro fs first c h
+    cases fs with
+    | nil => simp [lineOf] at h
+    | cons f fs =>
+      simp only [lineOf, fieldText, List.mem_append] at h
+      rcases h with h | ((h | h) | h) | h
+      · cases first <;> simp at h
+        exact Or.inl h
+      · exact Or.inl (mem_pad _ c h)
+      · exact Or.inr ⟨f, by simp, h⟩
+      · exact Or.inl (mem_pad _ c h)
+      · rcases ih fs false c h with h | ⟨g, hg, hc⟩
+        · exact Or.inl h
+        · exact Or.inr ⟨g, by simp [hg], hc⟩
+
+theorem noSpace_not_break (c : Char) (h : isSpace c = false) : c ≠ '\n' ∧ c ≠ '\r' := by
+  constructor
+  · intro e; subst e; revert h; decide
+  · intro e; subst e; revert h; decide
+
+theorem lineOK_lineOf (wd : Char → Nat) (w : Nat) (ws : List Nat) (f : Field) (fs : List Field)
+    (hok : CellsOK (f :: fs)) : LineOK (lineOf wd true (w :: ws) (f :: fs)) := by
+  constructor
+  · obtain ⟨c, cs, h, _⟩ := lineOf_head wd w ws f fs (hok f (by simp)).2
+      (fun c hc => ⟨(noSpace_not_break c ((hok f (by simp)).1 c hc)).2,
+        (noSpace_not_break c ((hok f (by simp)).1 c hc)).1⟩) []
+    intro e
+    rw [e] at h
+    simp at h
+  · intro c hc
+    rcases lineOf_chars wd (w :: ws) (f :: fs) true c hc with rfl | ⟨g, hg, hcg⟩
+    · exact ⟨by decide, by decide⟩
+    · exact noSpace_not_break c ((hok g hg).1 c hcg)
+
+theorem byteSize_lineOf_ge (wd : Char → Nat) (hwd : ∀ c, 1 ≤ wd c) :
+    ∀ (ws : List Nat) (fs : List Field) (first : Bool), fs.length = ws.length → (∀ f ∈ fs, f.contents ≠ []) →
+      ws.length ≤ byteSize wd (lineOf wd first ws fs) := by
+  intro ws
+  induction ws with
+  | nil => intro fs first _ _; simp
+  | cons w ws ih =>
+    intro fs first hlen hne
+    cases fs with
+    | nil => simp at hlen
+    | cons f fs =>
+      have h1 := byteSize_pos wd hwd f.contents (hne f (by simp))
+      have h2 := ih fs false (by simpa using hlen) (fun g hg => hne g (by simp [hg]))
+      simp only [lineOf, fieldText, byteSize_append, List.length_cons]
+      omega
 
 end Csvq.Fixed
